@@ -39,6 +39,9 @@ ASSUMPTIONS = [
     "float tokens are in Python-repr format (contain '.', an exponent sign, 'inf' or 'nan'); a bare token made only of hex digits such as "
     "1e5 or dead is faithfully read as a hexadecimal integer by the int(s,16) fall-back",
     "protocol lines are separated by '\\n' and the section is the text between the FIRST '### ASCCONV BEGIN ' and the FIRST '### ASCCONV END ###'",
+    "protocol texts lacking a marker, or whose first END precedes the first BEGIN, are generated (they exercise the code) but their result is not "
+    "compared (p_judged / c_judged = false in Phoenix/Corr.v, oracle silent): the property speaks only of assignments between the markers; the model "
+    "keeps the code's find() = -1 slicing there and C16_prot is stated for texts with both markers in order",
 ]
 
 D2, D1 = '""', '"'
@@ -584,6 +587,14 @@ BEFORE = ["", "<XProtocol>\n{\n  <Name> \"PhoenixMetaProtocol\"\n}\n", "junk = 1
 AFTER = ["", "\n", "\njunk after = 2\n", "\n### ASCCONV BEGIN ###\nlate = 1\n### ASCCONV END ###\n", " trailing", "\n### ASCCONV END ###\n", "\nk = ""unterminated\n"]
 
 
+def markers_in_order(text):
+    """the text HAS an ASCCONV section: a BEGIN marker, and the first END marker of the text comes after the first BEGIN.  Only then
+    does the property ("assignments between the ASCCONV BEGIN and END markers") say anything about the result."""
+    b = text.find(BEGIN)
+    e = text.find(END)
+    return b != -1 and e != -1 and e > b
+
+
 def build_prot(c):
     """components -> (prot_key, text, expectation).  expectation: None | ("err",) | ("items", [[key, tag, value], ...])"""
     pkey = c["pkey"]
@@ -784,7 +795,8 @@ class Prot:
                 o = "(PErr ECrash)"
             else:
                 o = "(PItems %s)" % clist(cpair(cstr(k), pv) for k, pv in pvs)
-        return "{| p_key := %s; p_text := %s; p_obs := %s |}" % (cstr(pkey), cstr(text), o)
+        judged = pkey not in ("MrPhoenixProtocol", "MrProtocol") or markers_in_order(text)
+        return "{| p_key := %s; p_text := %s; p_judged := %s; p_obs := %s |}" % (cstr(pkey), cstr(text), cbool(judged), o)
 
     @staticmethod
     def oracle(case, obs):
@@ -1086,8 +1098,12 @@ class Csa:
                 out.append(cpair(cstr(k), cv))
             return clist(out)
         cin = cdict(obs.get("in", [])) if "in" in obs else None
+        tags, _ = build_csa(case)
+        chosen = PHX if case["which"] in ("phoenix", "both") else (MRP if case["which"] == "mr" else None)
+        ptxt = [t["items"][0] for t in tags if t["name"] == chosen and t["items"]]
+        judged = cbool(chosen is None or bool(case.get("list_prot")) or (bool(ptxt) and markers_in_order(ptxt[0])))
         if cin is None:
-            return "{| c_in := []; c_obs := CErr ECrash |}"
+            return "{| c_in := []; c_judged := true; c_obs := CErr ECrash |}"
         if "err" in obs:
             o = "(CErr %s)" % obs["err"]
         elif "crash" in obs:
@@ -1095,7 +1111,7 @@ class Csa:
         else:
             cd = cdict(obs["items"])
             o = "(CErr ECrash)" if cd is None else "(CDict %s)" % cd
-        return "{| c_in := %s; c_obs := %s |}" % (cin, o)
+        return "{| c_in := %s; c_judged := %s; c_obs := %s |}" % (cin, judged, o)
 
     @staticmethod
     def oracle(case, obs):
